@@ -50,7 +50,12 @@ def cache_jobs(bits, tmo, skip=()):
 
 
 def jobs(tier):
-    js = [Job("box32_intersect", "C17/box32.c", kind="proof", functions=["box32_intersect"], timeout=300, min_props=6,
+    js = [Job("composite_glyphs.frame", "C17/composite_glyphs.c", kind="proof", unwind=2, functions=["pixman_composite_glyphs"],
+              domain="every operator, every mask format of pixman.h, every offset and size, mask allocation failing or not, zero glyphs",
+              timeout=600, min_props=4,
+              assumptions=["composite_glyphs.frame: pixman_image_create_bits / set_component_alpha / composite32 / unref are recording stubs; "
+                           "the accumulation of the glyphs into the mask (add_glyphs geometry) is NOT covered"]),
+          Job("box32_intersect", "C17/box32.c", kind="proof", functions=["box32_intersect"], timeout=300, min_props=6,
               domain="all int32 box coordinates (also empty / inverted boxes), ghost point anywhere")]
     # measured (loaded 16-core box, 3-6 jobs in parallel): 4 slots 6-41 s per job; 8 slots: keeps_null_slot 110 s,
     # history 146 s, clear_table 316 s, lifecycle 374 s, insert_glyph 406 s, lookup 550 s, api.insert 762 s;
